@@ -17,6 +17,7 @@ func init() {
 func c05(c *q.Ctx) {
 	poolMapOwner(c)
 	poolRollback(c)
+	cacheFillerPerTx(c)
 	reloadTotalRules(c)
 	poolReload(c)
 	metaCopiesDistinct(c)
@@ -151,4 +152,28 @@ func allK9Operations(c *q.Ctx, k9 *q.K9) {
 	k9.Operation(st+"(*State).procUndoBlkForWalk", map[string]string{"balance cache": walkBal})
 	k9.Operation(st+"(*State).procTodoBlkForWalk", map[string]string{"balance cache": walkBal})
 
+}
+
+// cacheFillerPerTx (C05, C01, C13): the deferred UTXO-cache insertions of a transaction are collected in a filler
+// that lives for THAT transaction only and is committed once: a filler shared by the transactions of a block replays
+// the insertions of the earlier ones after every later one, re-inserting outputs that were spent in between.
+func cacheFillerPerTx(c *q.Ctx) {
+	const st = "bcs/ledger/xledger/state::"
+	n := 0
+	for _, name := range []string{"procTodoBlkForWalk", "PlayAndRepost", "doTxSync"} {
+		f := c.Fn(st + "(*State)." + name)
+		if f == nil {
+			continue
+		}
+		for _, ci := range q.CallsIn(f, "State.doTxInternal") {
+			args := ci.Common().Args
+			if len(args) != 4 || q.Canon(args[3]) == "nil" {
+				continue
+			}
+			n++
+			c.Sites++
+			c.Check(q.FreshPerIteration(ci, args[3]), "K11", st+"(*State)."+name, "the cache filler handed to doTxInternal is created for this transaction", c.At(ci), "a filler that outlives the transaction re-commits its insertions after later transactions")
+		}
+	}
+	c.Floor("K11", st+"(*State).procTodoBlkForWalk", "doTxInternal calls with a cache filler", n, 3)
 }
